@@ -8,6 +8,8 @@ Model driver for C06. Line protocol (fields separated by one space; "-" = empty)
       cap    server-side cap on the page length (0 = none);  fail = request number answered with an
              error;  cbfail = callback invocation (0-based) that returns an error
       → the request/callback trace joined by '|', then '=' and the outcome
+  pagecut <pageSize> <pop> <k>   request k of a scan over a static table answered with its body cut to n
+      bytes, for every n < len → ok=<cuts after which the scan returned nil> (the model: none, "ok=-")
   idx  <status> <hexbody>     KeepService.index      → ok <digesthex:mtime,…> | err <class>
   gidx <status> <hexbody>     KeepClient.GetIndex    → ok <hex> | err <class>
   idxcut <hexbody> / gidxcut <hexbody>               → result class for every prefix length 0..len
@@ -68,13 +70,19 @@ def parseSched (s : String) : Option (List (List Op)) := do
 
 def optNat (s : String) : Option (Option Nat) := if s == "-" then some none else (nat? s).map some
 
-/-- `<k>`, `<k>n` (transport error) or `<k>j` (truncated JSON): the kind is irrelevant to the model -/
+/-- `<k>` (500), `<k>n` (transport error), `<k>j` (truncated JSON), `<k>e|b|h|l` (status 200, body cut at
+byte 0 / 1 / half / last), `<k>c<n>` (cut to n bytes): the kind is irrelevant to the model -/
 def optFail (s : String) : Option (Option Nat) :=
   if s == "-" then some none else
   let cs := s.toList
   let ds := cs.takeWhile Char.isDigit
   let rest := cs.dropWhile Char.isDigit
-  if rest == [] || rest == ['n'] || rest == ['j'] then (nat? (String.ofList ds)).map some else none
+  let cutN := match rest with
+    | 'c' :: r => !r.isEmpty && r.all Char.isDigit
+    | _ => false
+  if rest == [] || (rest.length == 1 && "njebhl".toList.contains (rest.headD ' ')) || cutN then
+    (nat? (String.ofList ds)).map some
+  else none
 
 def showFilt : Filt → String
   | .all => "-"
@@ -202,6 +210,11 @@ def doGcsAcc (cap ws p s res : String) : String :=
 def step (line : String) : String :=
   match fields line with
   | ["page", ps, cap, pop, sched, fail, cbfail] => doPage ps cap pop sched fail cbfail
+  | ["pagecut", ps, pop, k] =>
+    -- every proper prefix of a page response is a failed request: the scan never returns nil
+    match ps.toInt?, parsePop pop, nat? k with
+    | some _, some db, some _ => if uuidsDistinct db then "ok=-" else "bad-op"
+    | _, _, _ => "bad-op"
   | ["idx", st, hex] =>
     match nat? st, bytesOf hex with
     | some st, some b => if st != 200 then "err http" else showIdx (ksIndex b)
